@@ -181,6 +181,7 @@ func ruleST4(c *Ctx) {
 		return
 	}
 	c.probeErrorsReported(red)
+	c.initNeverNests()
 	n := 0
 	var isErgoJoin func(x ssa.Value, d int) bool
 	isErgoJoin = func(x ssa.Value, d int) bool {
